@@ -137,6 +137,22 @@ def validRange : PExpr → PExpr → Bool
 
 /-! ## the parser -/
 
+/-- `parse_identifier` (not a packet property) -/
+def identAtom : Tok → Res PExpr
+  | .ident s => .ok (.ident s)
+  | _ => .skip
+
+/-- `parse_decimal`: "could not parse … as an integer" is an error -/
+def decimalAtom : Tok → Res PExpr
+  | .int n => .ok (.int n)
+  | .badInt => .err
+  | _ => .skip
+
+/-- `parse_boolean` -/
+def boolAtom : Tok → Res PExpr
+  | .bool b => .ok (.bool b)
+  | _ => .skip
+
 mutual
 /-- `parse_expression(precedence = c)`; `ts` starts with the *current* token -/
 def parseExpr : Nat → Nat → List Tok → Res (PExpr × List Tok)
@@ -150,19 +166,9 @@ def parseExpr : Nat → Nat → List Tok → Res (PExpr × List Tok)
       match prefixKind t.ttype with
       | .none => .err                          -- `no_prefix_parse_error`
       | .other => .skip
-      | .ident =>
-        match t with
-        | .ident s => loop fuel c (.ident s) rest
-        | _ => .skip
-      | .decimal =>
-        match t with
-        | .int n => if peekIs "Assign" rest then .err else loop fuel c (.int n) rest
-        | .badInt => .err
-        | _ => .skip
-      | .boolean =>
-        match t with
-        | .bool b => if peekIs "Assign" rest then .err else loop fuel c (.bool b) rest
-        | _ => .skip
+      | .ident => (identAtom t).bind fun a => loop fuel c a rest
+      | .decimal => (decimalAtom t).bind fun a => if peekIs "Assign" rest then .err else loop fuel c a rest
+      | .boolean => (boolAtom t).bind fun a => if peekIs "Assign" rest then .err else loop fuel c a rest
       | .unary =>
         (parseExpr fuel unaryRank rest).bind fun (e, rest') => loop fuel c (.un t.ttype e) rest'
       | .grouped =>
